@@ -3,6 +3,7 @@ package main
 import (
 	"fmt"
 	"go/token"
+	"go/types"
 	"math/big"
 	"strings"
 
@@ -27,6 +28,11 @@ func (c *Checker) discoverConversions() []string {
 			continue
 		}
 		if !isBufferPtr(fn.Params[0].Type()) || !isBufferPtr(fn.Params[1].Type()) {
+			continue
+		}
+		// a format conversion has its own element type on either side (`FixedAsFixed[S, D]`); a function over two
+		// buffers of one element type (`Mix[T]`, `Copy[T]`) combines or compares, it does not convert
+		if types.Identical(fn.Params[0].Type(), fn.Params[1].Type()) {
 			continue
 		}
 		res := fn.Signature.Results()
